@@ -375,6 +375,13 @@ theorem record_distance_run (pm : PMsg) (hpm : Gen.profile.msg? mnRecord = some 
     DistRun pm di (effDist g) ms (expandList Gen.profile g ms).1 :=
   expandList_dist Gen.profile pm hpm ci si di hn ms hms g
 
+/-- D11 at the level of a file: an accumulator with mask 0 — what the generated code creates for
+    total_cycles and accumulated_power — reports its starting value (0 in a fresh process) for every
+    raw value, so those two destinations never move (known finding; the distance accumulator, created
+    with 12 bits, is the one the running-sum theorem is about) -/
+theorem mask_zero_run_constant (ds : List Nat) : accValues Accu.zero ds = ds.map fun _ => 0 :=
+  accValues_mask_zero Accu.zero rfl (by decide) ds
+
 set_option maxRecDepth 100000 in
 /-- non-vacuity, evaluated: three records with raw distances 0x0F0 → 0x0F8 → 0x003 (the low byte
     the generated code keeps: 0xF0, 0xF8, 0x03) from a fresh process give 0xF0, 0xF8 and, across the
